@@ -4,10 +4,13 @@
    used propagation). Every interleaving of the section lists of handlers on pairwise distinct
    pods, started from a consistent state, ends in a consistent state. *)
 From Coq Require Import List ZArith Bool Lia.
-From Verif Require Import Lib.Vec2 Lib.Interleave C01.Model C01.Spec C01.Proofs_Base C01.Proofs_Walk C01.Proofs_Delta
+From Verif Require Import Lib.VecN Lib.Interleave C01.Model C01.Spec C01.Proofs_Base C01.Proofs_Walk C01.Proofs_Delta
   C01.Proofs_Unique C01.Proofs_PodList C01.Proofs_Sections C01.Proofs_Pods C01.Proofs_Reset C01.Proofs_Main.
 Import ListNotations.
 Open Scope Z_scope.
+
+Section WithDim.
+Context {D : Dim}.
 
 (* ---------- atomic sections ---------- *)
 
@@ -545,7 +548,7 @@ Proof.
     + cbn [app]. apply ar_cons with (e1 := e1); [reflexivity | exact I | exact S1|].
       apply ar_cons with (e1 := e2); [reflexivity | exact Hok1 | exact S2 | constructor].
     + intros q' Hne. unfold e2, e1. rewrite !fupd_other by exact Hne. apply Hnone.
-    + unfold e2. rewrite fupd_same. reflexivity.
+    + unfold e2. rewrite fupd_same. cbn. unfold pi_quiet. cbn. rewrite ?viszero_zero. reflexivity.
 Qed.
 
 (* removing a cached pod (request first) *)
@@ -659,7 +662,7 @@ Proof.
     + exists e1. refine (conj _ (conj _ _)).
       * apply ar_cons with (e1 := e1); [reflexivity | exact Hok1 | exact S1 | constructor].
       * intros q' Hne. unfold e1. rewrite !fupd_other by exact Hne. reflexivity.
-      * unfold e1. rewrite fupd_same. cbn. unfold pi_quiet. cbn. rewrite Easg, Hu, Hun. reflexivity.
+      * unfold e1. rewrite fupd_same. cbn. unfold pi_quiet. cbn. rewrite Easg, Hu, Hun, ?viszero_zero. reflexivity.
 Qed.
 
 (* ---------- facts about a pod's entries in a consistent state ---------- *)
@@ -848,3 +851,5 @@ Proof.
   apply state_code_ok, inv_state_ok. apply H.
 Qed.
 
+
+End WithDim.
